@@ -318,6 +318,9 @@ pub mod vx_ids {
         @after 1 `push_coalesced(`
             proof {
                 lemma_adv_full(a@, ai as int, a_cur as int);
+                assert forall|c: int| #![trigger covers(result@, c)] covers(result@, c) <==> covers(r0, c) || inr(fb..a_cur, c) by {
+                    if inr(fb..a_cur, c) { assert(covers(result@, c)); } else { assert(covers(result@, c) <==> covers(r0, c)); }
+                }
                 lemma_step(a@, b@, r0, result@, fa, fb, next_front(a@, ai as int), fb,
                     a_cur, a@[ai as int].0.end, a@[ai as int].1, true, false);
             }
@@ -332,12 +335,18 @@ pub mod vx_ids {
         @after 2 `push_coalesced(`
             proof {
                 lemma_adv_full(a@, i as int, a@[i as int].0.start as int);
+                assert forall|c: int| #![trigger covers(result@, c)] covers(result@, c) <==> covers(r1, c) || inr(next_front(a@..i as int), c) by {
+                    if inr(next_front(a@..i as int), c) { assert(covers(result@, c)); } else { assert(covers(result@, c) <==> covers(r1, c)); }
+                }
                 lemma_step(a@, b@, r1, result@, front(a@, i as int, a@[i as int].0.start as int), inf(), next_front(a@, i as int), inf(),
                     a@[i as int].0.start, a@[i as int].0.end, a@[i as int].1, true, false);
             }
         @after 3 `push_coalesced(`
             proof {
                 lemma_adv_full(b@, bi as int, b_cur as int);
+                assert forall|c: int| #![trigger covers(result@, c)] covers(result@, c) <==> covers(r0, c) || inr(bi as int)..b_cur, c) by {
+                    if inr(bi as int)..b_cur, c) { assert(covers(result@, c)); } else { assert(covers(result@, c) <==> covers(r0, c)); }
+                }
                 lemma_step(a@, b@, r0, result@, fa, fb, fa, next_front(b@, bi as int),
                     b_cur, b@[bi as int].0.end, b@[bi as int].1, false, true);
             }
@@ -352,34 +361,45 @@ pub mod vx_ids {
         @after 4 `push_coalesced(`
             proof {
                 lemma_adv_full(b@, i as int, b@[i as int].0.start as int);
+                assert forall|c: int| #![trigger covers(result@, c)] covers(result@, c) <==> covers(r1, c) || inr(inf()..next_front(b@, c) by {
+                    if inr(inf()..next_front(b@, c) { assert(covers(result@, c)); } else { assert(covers(result@, c) <==> covers(r1, c)); }
+                }
                 lemma_step(a@, b@, r1, result@, inf(), front(b@, i as int, b@[i as int].0.start as int), inf(), next_front(b@, i as int),
                     b@[i as int].0.start, b@[i as int].0.end, b@[i as int].1, false, true);
             }
         @after 5 `push_coalesced(`
             proof {
-                assert(forall|c: int| #![trigger covers(result@, c)] covers(result@, c) ==> covers(r0, c) || inr(a_cur..a_end, c));
-                assert(forall|c: int| #![trigger covers(r0, c)] covers(r0, c) ==> covers(result@, c));
-                assert(forall|c: int| #![trigger inr(a_cur..a_end, c)] inr(a_cur..a_end, c) ==> covers(result@, c));
-                assert(forall|c: int| a_cur <= c < a_end ==> #[trigger] covers(result@, c));
                 lemma_adv_full(a@, ai as int, a_cur as int);
+                assert forall|c: int| #![trigger covers(result@, c)] covers(result@, c) <==> covers(r0, c) || inr(fb..a_cur, c) by {
+                    if inr(fb..a_cur, c) { assert(covers(result@, c)); } else { assert(covers(result@, c) <==> covers(r0, c)); }
+                }
                 lemma_step(a@, b@, r0, result@, fa, fb, next_front(a@, ai as int), fb,
                     a_cur, a_end, a@[ai as int].1, true, false);
             }
         @after 6 `push_coalesced(`
             proof {
                 lemma_adv_full(b@, bi as int, b_cur as int);
+                assert forall|c: int| #![trigger covers(result@, c)] covers(result@, c) <==> covers(r0, c) || inr(bi as int)..b_cur, c) by {
+                    if inr(bi as int)..b_cur, c) { assert(covers(result@, c)); } else { assert(covers(result@, c) <==> covers(r0, c)); }
+                }
                 lemma_step(a@, b@, r0, result@, fa, fb, fa, next_front(b@, bi as int),
                     b_cur, b_end, b@[bi as int].1, false, true);
             }
         @after 7 `push_coalesced(`
             proof {
                 lemma_adv_part(a@, ai as int, a_cur as int, b_cur as int);
+                assert forall|c: int| #![trigger covers(result@, c)] covers(result@, c) <==> covers(r0, c) || inr(a_cur..b_cur, c) by {
+                    if inr(a_cur..b_cur, c) { assert(covers(result@, c)); } else { assert(covers(result@, c) <==> covers(r0, c)); }
+                }
                 lemma_step(a@, b@, r0, result@, fa, fb, b_cur as int, fb,
                     a_cur, b_cur, a@[ai as int].1, true, false);
             }
         @after 8 `push_coalesced(`
             proof {
                 lemma_adv_part(b@, bi as int, b_cur as int, a_cur as int);
+                assert forall|c: int| #![trigger covers(result@, c)] covers(result@, c) <==> covers(r0, c) || inr(b_cur..a_cur, c) by {
+                    if inr(b_cur..a_cur, c) { assert(covers(result@, c)); } else { assert(covers(result@, c) <==> covers(r0, c)); }
+                }
                 lemma_step(a@, b@, r0, result@, fa, fb, fa, a_cur as int,
                     b_cur, a_cur, b@[bi as int].1, false, true);
             }
@@ -403,6 +423,9 @@ pub mod vx_ids {
                 assert forall|c: int| #![trigger val_at(a@, c)] os <= c < oe implies val_at(a@, c).merge_spec(&val_at(b@, c)) == mv by {
                     assert(val_at(a@, c) == a@[ai as int].1);
                     assert(val_at(b@, c) == b@[bi as int].1);
+                }
+                assert forall|c: int| #![trigger covers(result@, c)] covers(result@, c) <==> covers(r1, c) || inr(os..oe, c) by {
+                    if inr(os..oe, c) { assert(covers(result@, c)); } else { assert(covers(result@, c) <==> covers(r1, c)); }
                 }
                 lemma_step(a@, b@, r1, result@, os as int, os as int, fa2, fb2, os, oe, mv, true, true);
                 assert(minv(a@, b@, result@, fa2, fb2));
